@@ -19,7 +19,9 @@ package fun
 // Lock invariant: the counter is never negative; no waiter is parked
 // un-notified while the counter is zero; parked waiters imply the condition
 // variable exists.
-//@ pred wginv(wg *WaitGroup) = wg.counter >= 0 && wg.wW >= 0 && wg.wS >= 0 && (wg.wW > 0 ==> wg.cond != nil)
+// (credit is this goroutine's share of the counter: the counter is the sum of
+// all goroutines' credits, so it is at least this one)
+//@ pred wginv(wg *WaitGroup) = wg.counter >= 0 && wg.counter >= wg.credit && wg.wW >= 0 && wg.wS >= 0 && (wg.wW > 0 ==> wg.cond != nil)
 //@ pred wgwake(wg *WaitGroup) = wg.wW > 0 && wg.counter == 0 ==> wg.wS > 0
 //@ lockinv WaitGroup.mu(wg) = wginv(wg)
 //@ lockinv[C14] WaitGroup.mu(wg) = wgwake(wg)
@@ -31,6 +33,7 @@ package fun
 //@ func (*WaitGroup).Add
 //@   props C14 C13
 //@   option old section
+//@   option ghostsets-at-unlock
 //@   option acquires wg.mu
 //@   requires wg != nil && !held(wg.mu)
 //@   panics when old(wg.counter) + num < 0
